@@ -15,7 +15,7 @@ RULE = ("random populated topologies (3..12 real nodes, >=2 nodes on most levels
         "frame, ACK packets, relayed frames). Non-trivial: a multicast frame crossed the air and "
         "quiescence was reached; distinct = (sender class, level argument, length class, relay "
         "pattern, multicast-off pattern, profile class).")
-RULE += (" Later rounds added: multicast_level overrides, multicasts arriving while a member waits for a NETWORK_ACK, the reverse (a member's failing unicast starts right after the multicast reached its radio), a relay whose application stops reading, a multicast after a fragmented unicast that failed outright.")
+RULE += (" Later rounds added: multicast_level overrides, multicasts arriving while a member waits for a NETWORK_ACK, the reverse (a member's failing unicast starts right after the multicast reached its radio), a relay whose application stops reading, a multicast after a fragmented unicast that failed outright, nodes whose address was assigned more than once (the same again, or another level first) before the traffic.")
 REQUIRED = {"level_members_once": 150, "other_levels_clean": 150, "unacknowledged": 150,
             "relay_rebroadcast": 20, "multicast_off_not_listening": 30}
 BUDGET = {"quick": 480, "thorough": 900}
@@ -44,6 +44,7 @@ def populated(rng, nmin=3, nmax=12):
 
 def gen_cases(ctx):
     rng = ctx.sub_rng("c14")
+    rng2 = ctx.sub_rng("c14b")  # later additions draw from their own stream
     ntop = 160 if ctx.tier == "quick" else 8000
     for i in range(ntop):
         nodes = populated(rng)
@@ -149,8 +150,12 @@ def gen_cases(ctx):
         if lazy:
             for ms in msgs:
                 ms["len"] = max(4, ms["len"])
+        # some nodes were given their address more than once (the same one again, or another one of
+        # a different level first) before any traffic
+        readdr = {str(a): rng2.choice(["same", "same2", 0o4321, 0o5, 0o33, 0]) for a in nodes
+                  if i % 3 == 1 and rng2.random() < 0.5}
         yield {"nodes": nodes, "relay": relay1, "mc_off": mc_off, "msgs": msgs, "lazy": lazy,
-               "mlevel": mlevel, "busy": busy, "stall": stall, "prefail": prefail,
+               "mlevel": mlevel, "readdr": readdr, "busy": busy, "stall": stall, "prefail": prefail,
                "profiles": {str(a): N.rand_profile(rng, base=base) for a in nodes},
                "seed": rng.getrandbits(30)}
 
@@ -167,6 +172,10 @@ def _run(ctx, case, net):
     nodes = case["nodes"]
     for a in nodes:
         def setup(o, a=a):
+            via = case.get("readdr", {}).get(str(a))
+            if via is not None:
+                for x in {"same": [a], "same2": [a, a]}.get(via, [via, a]):
+                    o.node_address = x
             if a in case["mc_off"]:
                 o.allow_multicast = False
                 o.node_address = a
